@@ -23,8 +23,8 @@ let () =
   reg "reuse.items" (fun [v] -> String.concat "|" (List.map hex_of_bytes (cc_items (bytes_of_hex v))));
   reg "reuse.int" (fun [v] -> match parse_int (bytes_of_hex v) with None -> "fail" | Some z -> "ok " ^ string_of_z z);
   reg "reuse.member" (fun [vals; m] -> b2s (has_list_member (blist vals) (bytes_of_hex m)));
-  (* reuse.e2e method status auth req_pragma req_cc resp_cc date expires lm ctype clen resp_pragma *)
-  reg "reuse.e2e" (fun [m; st; auth; qpr; qcc; pcc; date; exp; lm; ct; cl; ppr] ->
+  (* reuse.e2e method status auth req_pragma req_cc resp_cc date expires lm ctype clen resp_pragma negative_ttl(0 = default) *)
+  reg "reuse.e2e" (fun [m; st; auth; qpr; qcc; pcc; date; exp; lm; ct; cl; ppr; negttl] ->
     let q = { q_method = bytes_of_hex m; q_cc_vals = blist qcc; q_pragma_vals = blist qpr;
               q_has_authorization = (auth = "1"); q_has_userinfo = false; q_ims = false } in
     let p = { p_status = n_of_string st; p_cc_vals = blist pcc; p_pragma_vals = blist ppr; p_date = opt_time date;
@@ -33,5 +33,6 @@ let () =
               p_last_modified = opt_time lm;
               p_content_type = (if ct = "none" then None else Some (bytes_of_hex ct));
               p_content_length = z_of_string cl } in
-    let o = two_requests default_config plain_hstate q p t0 (z_of_string "1") in
+    let cf = { default_config with negative_ttl = (if negttl = "0" then default_config.negative_ttl else z_of_string negttl) } in
+    let o = two_requests cf plain_hstate q p t0 (z_of_string "1") in
     "first=" ^ string_of_n (first_arrivals q) ^ " second=" ^ outcome_s o)
